@@ -62,7 +62,7 @@ def layouts(tier):
     out = []
     kinds = ['constant', 'linear', 'biquadratic', 'cubic']
     # single sub-grids: shapes x increments x placements
-    shapes = [(3, 3), (4, 5), (8, 6), (5, 8)] + ([(3, 60), (60, 4)] if tier == 'quick' else [(3, 60), (60, 4), (60, 60), (8, 8), (5, 3)])
+    shapes = [(3, 3), (4, 5), (8, 6), (5, 8)] + ([(3, 60), (60, 4), (8, 8), (60, 60)] if tier == 'quick' else [(3, 60), (60, 4), (60, 60), (8, 8), (5, 3), (9, 4), (4, 9), (60, 8)])
     places = [(-108000, -540000), (162000 + F(1, 2), 270000 + F(1, 4)), (-1800 + F(1, 8), -1800), (0, 0)]   # (s_lat, e_long) arc-seconds
     incs = [30, 150, 600, 3600]
     i = 0
